@@ -146,80 +146,54 @@ theorem unfixed_lines_split_long_lines :
 
 /-! ## read_number (`*n`) -/
 
-/-- **read_number (proved part)**: from EVERY state satisfying the cursor invariant (any buffer size `R`, any amount
-    of read-ahead, the numeral anywhere relative to the buffer boundary), `*n` on a text of `numProved` — white space
-    without a line feed, then the end of the file or a decimal numeral followed by white space / the end of the
-    file — delivers exactly the Spec's result (the numeral, or nil at the end of the file) and leaves the cursor
-    exactly where the Spec puts it (right after the numeral), consuming exactly those bytes of the stream. -/
-theorem read_number_partial (R : Nat) (hR : 0 < R) (f : LFile) (h : Readable f) (hg : numProved (stream f) = true) :
+/-- **read_number**: from EVERY state satisfying the cursor invariant (any buffer size `R`, any amount of read-ahead,
+    the numeral anywhere relative to the buffer boundary), `*n` on EVERY text whose reading the Spec fixes
+    (`numSpecified`: any white space — line feeds included —, then the end of the file, a decimal numeral or a
+    hexadecimal integer followed by white space / the end of the file, or an ASCII byte that cannot begin a numeral)
+    delivers exactly the Spec's result (the numeral, or nil), consumes exactly the bytes the Spec consumes (a `Reads`
+    step: invariant kept), and leaves the cursor exactly where the Spec puts it: right after the numeral, at the end
+    of the file, or in front of the byte that is no numeral.  (Full strength since fixes/C19-6; before, the statement
+    was false: `fmt.Fscanf` rejected line feeds and hexadecimal integers and consumed exponent letters.) -/
+theorem read_number_full (R : Nat) (hR : 0 < R) (f : LFile) (h : Readable f)
+    (hg : FileSpec.numSpecified (stream f) = true) :
     ∃ f' out, Reads f f' out ∧
       readOne R f .num = (f', toOut (FileSpec.readFmt f.disk (cursor f) .num).1) ∧
       cursor f' = (FileSpec.readFmt f.disk (cursor f) .num).2 := by
-  obtain ⟨f', out, hr, he, hc⟩ := fscanNumber_sim hR h hg
+  obtain ⟨f', out, hr, he, hc⟩ := readBufioNumber_sim hR h hg
   exact ⟨f', out, hr, he, hc.symm⟩
 
-/-- **read_number (full statement)**: the same on every text whose reading the Spec fixes (`numSpecified`: any white
-    space incl. line feeds, decimal and hexadecimal numerals, nil when no numeral starts at the cursor). -/
-def read_number_full : Prop :=
-  ∀ (R : Nat), 0 < R → ∀ (f : LFile), Readable f → FileSpec.numSpecified (stream f) = true →
-    (readOne R f .num).2 = toOut (FileSpec.readFmt f.disk (cursor f) .num).1 ∧
-    cursor (readOne R f .num).1 = (FileSpec.readFmt f.disk (cursor f) .num).2
-
-/-- the full statement is false of the code: a line feed before the numeral makes `fmt.Fscanf` fail
-    (open finding C19-readnum-rejects-newline). -/
-theorem read_number_full_fails : ¬ read_number_full := by
-  intro h
-  have := (h 4096 (by decide) (ioOpenFile [10, 49, 50] .r) (readable_open_r _) (by decide +kernel)).1
-  revert this; decide +kernel
-
-/-- the guard "no line feed" of `read_number_partial` is NECESSARY, not a proof-effort gap: from every state with the
-    invariant, whenever a line feed is among the white space at the cursor — whatever comes after it — `*n` takes the
-    error exit (nil, "unexpected newline", 1), the cursor stops right behind the first line feed, and the result is
-    none the Spec could prescribe (a value or nil). -/
-theorem read_number_newline_always_fails (R : Nat) (hR : 0 < R) (f : LFile) (h : Readable f) (ws T : Bytes)
-    (hS : stream f = ws ++ 10 :: T) (hws : ∀ c ∈ ws, FileSpec.isBlank c = true ∧ c ≠ 10) :
-    (readOne R f .num).2 = .err ∧ cursor (readOne R f .num).1 = cursor f + ws.length + 1 ∧
-    (readOne R f .num).2 ≠ toOut (FileSpec.readFmt f.disk (cursor f) .num).1 := by
-  obtain ⟨f', hr, he⟩ := fscanNumber_newline hR h hS hws
-  have he' : readOne R f .num = (f', .err) := by simpa only [readOne] using he
-  rw [he']
-  refine ⟨rfl, by rw [hr.cur]; simp; omega, ?_⟩
-  cases (FileSpec.readFmt f.disk (cursor f) .num).1 <;> simp [toOut]
-
-example : ∃ (f : LFile) (ws T : Bytes), Readable f ∧ stream f = ws ++ 10 :: T ∧ ws ≠ [] ∧
-    (∀ c ∈ ws, FileSpec.isBlank c = true ∧ c ≠ 10) :=
-  ⟨ioOpenFile [32, 9, 10, 49] .r, [32, 9], [49], readable_open_r _, by decide, by decide, by decide⟩
-
-/-- the recorded deviations of `*n` and of the format loop, each on its witness (Model vs Spec, `decide`):
-    a line feed among the leading white space; a hexadecimal integer; an exponent letter that is consumed though no
-    numeral follows (the Spec leaves the cursor at 0, the Model at 2); earlier results dropped when a later `*n`
-    fails; the lone star. -/
-theorem read_number_deviations :
+/-- the witnesses of the repaired findings (newline, hexadecimal integer, exponent letter, a failing `*n` after a
+    successful one), now with the Spec's results and cursors: Model = Spec on each (kernel evaluation). -/
+theorem read_number_repaired_witnesses :
     -- "1\n2\n": read("*n","*n")
-    (run 4096 (ioOpenFile [49, 10, 50, 10] .r) [.read [.num, .num]]).2 = [.fail] ∧
-    (FileSpec.run (FileSpec.openStream [49, 10, 50, 10] .r) [.read [.num, .num]]).2 = [.vals [some [49], some [50]]] ∧
+    (run 4096 (ioOpenFile [49, 10, 50, 10] .r) [.read [.num, .num], .seek .cur 0]).2 = [.vals [some [49], some [50]], .pos 3] ∧
+    (FileSpec.run (FileSpec.openStream [49, 10, 50, 10] .r) [.read [.num, .num], .seek .cur 0]).2 = [.vals [some [49], some [50]], .pos 3] ∧
     -- "0x10 "
-    (run 4096 (ioOpenFile [48, 120, 49, 48, 32] .r) [.read [.num]]).2 = [.fail] ∧
+    (run 4096 (ioOpenFile [48, 120, 49, 48, 32] .r) [.read [.num]]).2 = [.vals [some [48, 120, 49, 48]]] ∧
     (FileSpec.run (FileSpec.openStream [48, 120, 49, 48, 32] .r) [.read [.num]]).2 = [.vals [some [48, 120, 49, 48]]] ∧
     -- "e5 x": read("*n"); read("*a")
-    (run 4096 (ioOpenFile [101, 53, 32, 120] .r) [.read [.num], .read [.all]]).2 = [.fail, .vals [some [32, 120]]] ∧
+    (run 4096 (ioOpenFile [101, 53, 32, 120] .r) [.read [.num], .read [.all]]).2 = [.vals [none], .vals [some [101, 53, 32, 120]]] ∧
     (FileSpec.run (FileSpec.openStream [101, 53, 32, 120] .r) [.read [.num], .read [.all]]).2 =
       [.vals [none], .vals [some [101, 53, 32, 120]]] ∧
     -- "5 abc": read("*n","*n")
-    (run 4096 (ioOpenFile [53, 32, 97, 98, 99] .r) [.read [.num, .num]]).2 = [.fail] ∧
-    (FileSpec.run (FileSpec.openStream [53, 32, 97, 98, 99] .r) [.read [.num, .num]]).2 = [.vals [some [53], none]] ∧
-    -- read("*")
-    (run 4096 (ioOpenFile [97] .r) [.read [.str [42]]]).2 = [.vals []] ∧
-    (FileSpec.run (FileSpec.openStream [97] .r) [.read [.str [42]]]).2 = [.raise] := by
-  refine ⟨by decide +kernel, by decide +kernel, by decide +kernel, by decide +kernel, by decide +kernel, by decide +kernel, by decide +kernel, by decide +kernel, by decide +kernel, by decide +kernel⟩
+    (run 4096 (ioOpenFile [53, 32, 97, 98, 99] .r) [.read [.num, .num], .seek .cur 0]).2 = [.vals [some [53], none], .pos 2] ∧
+    (FileSpec.run (FileSpec.openStream [53, 32, 97, 98, 99] .r) [.read [.num, .num], .seek .cur 0]).2 = [.vals [some [53], none], .pos 2] ∧
+    -- read("*"), read("")
+    (run 4096 (ioOpenFile [97] .r) [.read [.str [42]], .read [.str []]]).2 = [.raise, .raise] ∧
+    (FileSpec.run (FileSpec.openStream [97] .r) [.read [.str [42]], .read [.str []]]).2 = [.raise, .raise] := by
+  refine ⟨by decide +kernel, by decide +kernel, by decide +kernel, by decide +kernel, by decide +kernel, by decide +kernel,
+    by decide +kernel, by decide +kernel, by decide +kernel, by decide +kernel⟩
 
-/-- non-vacuity of `read_number_partial`: the numeral "-12.5e1" after three blanks, read from a state with read-ahead
-    (4-byte buffer, one byte already delivered), followed by a blank. -/
+/-- non-vacuity of `read_number_full`: three blanks INCLUDING a line feed, then the numeral "-12.5e1", read from a state
+    with read-ahead (4-byte buffer, one byte already delivered); and a hexadecimal integer at the end of the file. -/
 example :
-    let f := (step 4 (ioOpenFile [120, 32, 9, 32, 45, 49, 50, 46, 53, 101, 49, 32, 55] .r) (.read [.count 1])).1
-    f.rbuf.length = 3 ∧ numProved (stream f) = true ∧
-    (readOne 4 f .num).2 = .val [45, 49, 50, 46, 53, 101, 49] ∧ cursor (readOne 4 f .num).1 = 11 := by
-  refine ⟨by decide +kernel, by decide +kernel, by decide +kernel, by decide +kernel⟩
+    let f := (step 4 (ioOpenFile [120, 32, 10, 32, 45, 49, 50, 46, 53, 101, 49, 32, 48, 88, 102, 70] .r) (.read [.count 1])).1
+    f.rbuf.length = 3 ∧ FileSpec.numSpecified (stream f) = true ∧
+    (readOne 4 f .num).2 = .val [45, 49, 50, 46, 53, 101, 49] ∧ cursor (readOne 4 f .num).1 = 11 ∧
+    FileSpec.numSpecified (stream (readOne 4 f .num).1) = true ∧
+    (readOne 4 (readOne 4 f .num).1 .num).2 = .val [48, 88, 102, 70] ∧ cursor (readOne 4 (readOne 4 f .num).1 .num).1 = 16 := by
+  refine ⟨by decide +kernel, by decide +kernel, by decide +kernel, by decide +kernel, by decide +kernel, by decide +kernel,
+    by decide +kernel⟩
 
 /-! ## the `io` library level: default files, `io.lines`, `io.type` -/
 
@@ -228,7 +202,7 @@ example :
     `io.read`, `io.write`, `io.flush`, `io.close`, `io.lines(name)` and its iterator run to the end, `io.lines()`,
     `io.type`, `tostring` — that stays within the guard `wguard` (evaluated along the Spec's states: ISO C discipline,
     one handle at a time, default slots holding a handle of the file — current or stale —, unbuffered writer,
-    CR-free line reads, `*n` on `numProved` texts, formats of `fmtsProved`, none of the recorded deviations) yields
+    CR-free line reads, reads whose meaning the Spec fixes — `readSpecified`) yields
     exactly the Spec's results, and the final world abstracts to the Spec's final world: same bytes on disk, same
     cursor, same closed flag, same default slots.  For every buffer size, content and open mode. -/
 theorem io_world_refines_cursor_partial (R : Nat) (hR : 0 < R) (d : Bytes) (m : Mode) (ops : List WOp)
@@ -240,11 +214,15 @@ theorem io_world_refines_cursor_partial (R : Nat) (hR : 0 < R) (d : Bytes) (m : 
   exact this
 
 /-- what the property itself demands of a history (no proof-effort guards, no exclusion of deviations): the ISO C
-    discipline, one handle at a time, default slots that hold a handle of the file, reads whose meaning is fixed. -/
+    discipline, one handle at a time, default slots that hold a handle of the file, reads whose meaning is fixed
+    (and not `io.lines()` over an open handle that cannot be read: not fixed either). -/
 def wspecified (pend : Bool) (w : WStream) : List WOp → Bool
   | [] => true
   | o :: os =>
     FileSpec.slotOk w o &&
+    (match o with
+     | .ioLines => !(decide (w.defIn = .cur) && !w.s.closed && !w.s.canRead)
+     | _ => true) &&
     (match FileSpec.effOp w o with
      | some (.write _) => !pend
      | some (.reopen _) => w.s.closed
@@ -259,21 +237,23 @@ def io_world_refines_cursor_full : Prop :=
     (wrun R (openWorld d m) ops).2 = (FileSpec.wrun (openWStream d m) ops).2 ∧
     absW (wrun R (openWorld d m) ops).1 = (FileSpec.wrun (openWStream d m) ops).1
 
-/-- false of the code: `io.output(name)` does not truncate (open finding C19-io-output-no-truncate) — the file
-    "0123" ends as "AB23", the Spec's as "AB". -/
+/-- still false of the code, for the one finding left open (C19-readline-strips-cr): `io.read("*l")` on "a\r\nb"
+    drops the CR.  (The other guard of the proved part, the unbuffered writer, is a proof-effort gap.) -/
 theorem io_world_refines_cursor_full_fails : ¬ io_world_refines_cursor_full := by
   intro h
-  have := (h 4096 (by decide) [48, 49, 50, 51] .r [.h .close, .ioOutputName, .ioWrite [65, 66], .ioClose] (by decide +kernel)).2
+  have := (h 4096 (by decide) [97, 13, 10, 98] .r [.ioInput, .ioRead [.line]] (by decide +kernel)).1
   revert this; decide +kernel
 
-/-- the deviations at the library level on their witnesses: `io.output(name)` keeps the old content; a closed handle is
-    accepted by `io.input` / `io.output`, and `io.lines()` hands out an iterator over it (the Spec raises in all three). -/
-theorem io_world_deviations :
-    (wrun 4096 (openWorld [48, 49, 50, 51] .r) [.h .close, .ioOutputName, .ioWrite [65, 66], .ioClose]).1.f.disk = [65, 66, 50, 51] ∧
+/-- the witnesses of the repaired findings at the library level, now with the Spec's outcome: `io.output(name)` truncates
+    ("0123" ends as "AB"); a closed handle given to `io.input` / `io.output`, and `io.lines()` over a closed default
+    input, raise and leave the defaults alone. -/
+theorem io_world_repaired_witnesses :
+    (wrun 4096 (openWorld [48, 49, 50, 51] .r) [.h .close, .ioOutputName, .ioWrite [65, 66], .ioClose]).1.f.disk = [65, 66] ∧
     (FileSpec.wrun (openWStream [48, 49, 50, 51] .r) [.h .close, .ioOutputName, .ioWrite [65, 66], .ioClose]).1.s.bytes = [65, 66] ∧
-    (wrun 4096 (openWorld [97] .r) [.h .close, .ioInput, .ioOutput, .ioLines]).2 = [.ok, .ok, .ok, .ok] ∧
-    (FileSpec.wrun (openWStream [97] .r) [.h .close, .ioInput, .ioOutput, .ioLines]).2 = [.ok, .raise, .raise, .nothing] := by
-  refine ⟨by decide +kernel, by decide +kernel, by decide +kernel, by decide +kernel⟩
+    (wrun 4096 (openWorld [97] .r) [.ioInput, .h .close, .ioInput, .ioOutput, .ioLines]).2 = [.ok, .ok, .raise, .raise, .raise] ∧
+    (FileSpec.wrun (openWStream [97] .r) [.ioInput, .h .close, .ioInput, .ioOutput, .ioLines]).2 = [.ok, .ok, .raise, .raise, .raise] ∧
+    (wrun 4096 (openWorld [97] .r) [.h .close, .ioInput, .ioOutput]).1.defIn = .std := by
+  refine ⟨by decide +kernel, by decide +kernel, by decide +kernel, by decide +kernel, by decide +kernel⟩
 
 /-- **lines_iterators**: one call of an iterator made by `io.lines(name)` (`auto = true`) or by `io.lines()` /
     `f:lines()` (`auto = false`) on the current handle, from any state of the simulation (any read-ahead), CR-free
@@ -329,7 +309,7 @@ theorem io_type_reports_closed (R : Nat) (w : World) :
   ⟨rfl, rfl, by decide, by decide⟩
 
 /-- a history that meets the guard of `io_world_refines_cursor_partial` and uses every new operation: `*n` (three
-    numerals, one straddling the 4-byte buffer), `io.input(f)`/`io.output(f)`, `io.read`, `io.write` after a seek,
+    numerals — one after a line feed, one hexadecimal, one straddling the 4-byte buffer), `io.input(f)`/`io.output(f)`, `io.read`, `io.write` after a seek,
     `io.flush`, `io.lines()` + iterator, `io.type`, `io.close()`, a stale default (`io.write` raises), `io.lines(name)`
     run past the end (closes; the next call raises), `io.input(name)`, an invalid format (raises), `tostring`. -/
 def exampleWOps : List WOp :=
@@ -337,14 +317,15 @@ def exampleWOps : List WOp :=
    .ioFlush, .ioLines, .ioIter false, .ioType, .ioClose, .ioType, .ioLinesName, .ioWrite [88], .ioIter true,
    .ioIter true, .ioIter true, .ioType, .ioInputName, .ioRead [.count 2, .str [120]], .toStr, .h .close]
 
-def exampleWData : Bytes := [49, 50, 32, 9, 45, 51, 46, 53, 101, 49, 32, 32, 52, 32, 33, 32, 32, 32, 32, 32]
+def exampleWData : Bytes := [49, 50, 32, 10, 45, 51, 46, 53, 101, 49, 32, 32, 48, 120, 70, 32, 33, 32, 32, 32, 32, 32]
 
 example : wguard false (openWStream exampleWData .rp) exampleWOps = true ∧
     (wrun 4 (openWorld exampleWData .rp) exampleWOps).2 =
-      [.vals [some [49, 50], some [45, 51, 46, 53, 101, 49]], .ok, .ok, .vals [some [52], some [32]], .pos 14, .ok,
+      [.vals [some [49, 50], some [45, 51, 46, 53, 101, 49]], .ok, .ok, .vals [some [48, 120, 70], some [32]], .pos 16, .ok,
        .ok, .ok, .vals [some [32, 32, 32, 32]], .vals [some FileSpec.strFile], .ok, .vals [some FileSpec.strClosedFile],
-       .ok, .raise, .vals [some [49, 50, 32, 9, 45, 51, 46, 53, 101, 49, 32, 32, 52, 32, 32, 55, 32, 32, 32, 32]],
-       .vals [none], .raise, .vals [some FileSpec.strClosedFile], .ok, .raise, .vals [some FileSpec.strFile], .ok] := by
+       .ok, .raise, .vals [some [49, 50, 32]],
+       .vals [some [45, 51, 46, 53, 101, 49, 32, 32, 48, 120, 70, 32, 32, 55, 32, 32, 32, 32]], .vals [none],
+       .vals [some FileSpec.strClosedFile], .ok, .raise, .vals [some FileSpec.strFile], .ok] := by
   refine ⟨by decide +kernel, by decide +kernel⟩
 
 /-! ## closed_handle_guard -/
@@ -396,6 +377,6 @@ example : Disciplined exampleOps ∧ noBuffering exampleOps ∧ lineSafe example
 example : ∃ f : LFile, f.rbuf.length = 3 ∧ Sim true f :=
   ⟨(step 4 (ioOpenFile exampleData .rp) (.read [.count 1])).1, by decide,
    (step_sim (R := 4) (by decide) (sim_open exampleData .rp) (.read [.count 1]) (by simp) (by simp) rfl
-      (by simp [usesLine]) (by decide)).2.2⟩
+      (by simp [usesLine, FileSpec.classify]) (by decide)).2.2⟩
 
 end GLua.Props.C19
